@@ -494,7 +494,7 @@ def units(tier, seed):
     us += [{"kind": "order", "first": ch} for ch in chunks(refs, 24)]
     us += [{"kind": "order-mixed"}]
     us += [{"kind": "files", "a": i} for i in range(len(FILE_REFS))]
-    us += [{"kind": "write-histories", "depth": 3 if tier == "quick" else 4, "ext": ext, "first": op} for ext in ("tsv", "tsv.gz") for op in HIST_OPS]
+    us += [{"kind": "write-histories", "depth": 3 if tier == "quick" else 5, "ext": ext, "first": op} for ext in ("tsv", "tsv.gz") for op in HIST_OPS]
     return us
 
 
@@ -629,7 +629,7 @@ def describe(tier):
         "from_curie / string validation / JSON round trip / immutability; all ordered pairs of objects (equality, hash, set membership, <); all "
         "triples of the Reference objects and all triples of a mixed-class subset (irreflexive, transitive, total, antisymmetric); 3 converter "
         "contexts x all prefixes x 4 entry points x 3 classes; write_triples/read_triples of every triple over 8 references (identifiers with tab, "
-        "quote, LF, CR, separators, empty) individually and as one file, plain and gzip; every sequence of <= 3 (thorough 4) write steps on one path over "
+        "quote, LF, CR, separators, empty) individually and as one file, plain and gzip; every sequence of <= 3 (thorough 5) write steps on one path over "
         f"{HIST_OPS} (complete writes, writes whose source breaks after j triples with the exception kept / forgotten / answered by a retry, release of the kept exceptions), "
         "the file read back after every step; distinct_nontrivial = ordered pairs of different "
         "objects with equal (prefix, identifier)",
